@@ -96,6 +96,14 @@ def readMakerNotes (tb : Tables) (r : R) (t : Tag) : Outcome R :=
     else .ok r
   else .ok r
 
+/-- the `switch t.Ifd` of readIfd for a directory-pointer tag: which child directory is read -/
+def ifdChild (tb : Tables) (r2 : R) (t : Tag) : Outcome R :=
+  if t.ifd = ifd0 then
+    (if t.id = 0x8825 ∨ t.id = 0x8769 then do let (x, _) ← readIfdHeader tb r2 t.childIfd; .ok x else .ok r2)
+  else if subIfd0 ≤ t.ifd ∧ t.ifd ≤ subIfd0 + 5 then do let (x, _) ← readIfdHeader tb r2 t.childIfd; .ok x
+  else if t.ifd = exifIFD then (if t.id = 0x927c then readMakerNotes tb r2 t else .ok r2)
+  else .ok r2
+
 /-- the work loop of readIfd -/
 def ifdLoop (tb : Tables) : Nat → R → Outcome R
   | 0, _ => .fuel
@@ -107,12 +115,7 @@ def ifdLoop (tb : Tables) : Nat → R → Outcome R
         if t.typ = tIfd then do
           let (r1, _) := discard r ((t.off : Int) - r.po)      -- seekToTag: the error is only logged
           let r2 := resetPosition r1
-          let r3 ←
-            (if t.ifd = ifd0 then
-              (if t.id = 0x8825 ∨ t.id = 0x8769 then do let (x, _) ← readIfdHeader tb r2 t.childIfd; .ok x else .ok r2)
-            else if subIfd0 ≤ t.ifd ∧ t.ifd ≤ subIfd0 + 5 then do let (x, _) ← readIfdHeader tb r2 t.childIfd; .ok x
-            else if t.ifd = exifIFD then (if t.id = 0x927c then readMakerNotes tb r2 t else .ok r2)
-            else .ok r2 : Outcome R)
+          let r3 ← ifdChild tb r2 t
           ifdLoop tb f { r3 with pos := r3.pos + 1 }
         else if t.id = 0x014a ∧ t.ifd = ifd0 then do
           let r1 ← readSubIfds r t
